@@ -648,3 +648,15 @@ Proof.
   eexists; eexists; eexists. split; [vm_compute; reflexivity|].
   vm_compute. discriminate.
 Qed.
+
+Lemma modularity_def_square_match m labels lc wk gamma md ft dv :
+  w_nrow m = w_ncol m -> wf_wgraph (w_rows m) ->
+  get_modularity m labels lc wk gamma = MOk (md, ft, dv) ->
+  md == match wk with
+        | Degree => spec_modularity (w_rows m) labels gamma
+        | Uniform => spec_modularity_uniform (w_rows m) labels gamma
+        end.
+Proof.
+  intros Hsq Hwf H. pose proof (modularity_def_square m labels lc wk gamma md ft dv Hsq Hwf H) as E.
+  destruct wk; exact E.
+Qed.
